@@ -34,7 +34,7 @@ pub fn plan(p: &EpParams) -> Plan {
     Plan {
         episodes: n,
         exhaustive: false,
-        rule: "sequential episodes on a populated server (2 topics, 3 subscriptions, backlog and leases): 20-30 seeded requests each with one corrupted field (hostile resource names incl. near-miss names, empty / 1 MiB / NUL / non-ASCII / huge non-ASCII / slash-heavy strings; boundary integers for page_size, max_messages, ack_deadline_seconds, modify seconds, max_outstanding_messages; ack-ID batches with one bad element at each position; hostile page tokens; unsupported push endpoints; StreamingPull first messages and control messages that mix valid acks with invalid modifications, repeat subscription / max_outstanding_* or have mismatched arrays), every 5th request a pair of corruptions. Non-trivial: >=1 corrupted request was answered. Distinct: (request type, field, corruption class).".into(),
+        rule: "sequential episodes on a populated server (2 topics, 3 subscriptions, backlog and leases): 20-30 seeded requests each with one corrupted field (hostile resource names incl. near-miss names, empty / 1 MiB / NUL / non-ASCII / huge non-ASCII / slash-heavy strings; boundary integers for page_size, max_messages, ack_deadline_seconds, modify seconds, max_outstanding_messages; ack-ID batches with one bad element at each position (non-numeric, signed, padded, fractional, full-width digits, and decimal numbers just past 2^64-1 such as 2^64 and 2^64+1); hostile page tokens; unsupported push endpoints; StreamingPull first messages and control messages that mix valid acks with invalid modifications, repeat subscription / max_outstanding_* or have mismatched arrays), every 5th request a pair of corruptions. Non-trivial: >=1 corrupted request was answered. Distinct: (request type, field, corruption class).".into(),
     }
 }
 
@@ -86,7 +86,8 @@ fn bad_names(kind: &str, rng: &mut Rng) -> (String, NameClass, &'static str) {
     choices[rng.below(choices.len() as u64) as usize].clone()
 }
 
-const BAD_ACK_IDS: [&str; 9] = ["", "abc", " 1", "1 ", "1a", "99999999999999999999999999", "１２", "-1", "1.0"];
+// (the 20-digit ones are just past u64::MAX: 2^64, 2^64+1 - which would alias ack ID 1 if it wrapped -, 2^64+2 and 20 nines)
+const BAD_ACK_IDS: [&str; 14] = ["", "abc", " 1", "1 ", "1a", "99999999999999999999999999", "１２", "-1", "1.0", "18446744073709551616", "18446744073709551617", "18446744073709551618", "99999999999999999999", "184467440737095516150"];
 const BAD_TOKENS: [&str; 14] = [
     "!", "AAAA", "AAAAAAAAAAAA", "not base64 at all", "=", "AAAAAAAAAAA", "é", "AAAAAAAAAAAAAAAAAAAAAA==",
     // decodable 8-byte tokens (little-endian offsets 1, 2, 3, 1000, 2^63, 2^64-1): beyond what exists
